@@ -253,6 +253,8 @@ def s_For(self, st, env):
   ghost.update({'_k': SV(INT, n), f'_k{lid}': SV(INT, n)})
   for g in eval_clauses(self, invs, env, ghost):
     self.assume(g)
+  if getattr(it, 'on_exhaust', None) is not None:
+    it.on_exhaust(self)      # may raise: the source failed where it would otherwise have produced the next item / stopped
   # after exhaustion the loop variable keeps its last value (if any); it is left unconstrained
   self.exec_block(st.orelse, env)
 
@@ -371,7 +373,8 @@ def comprehension(self, n, env, kind):
         hint = SeqOf(s0) if kind in ('list', 'tuple') else SetOf(s0)
       el = self.coerce(el_v, hint.elem)
     elif kind == 'dict':
-      if hint is None:
+      if hint is None or not isinstance(hint, MapOf):
+        # the target's model is not a map (e.g. an object the dict becomes): build the dict value first
         hint = getattr(self.spec, 'dict_hint', None)
       if hint is None:
         raise OutsideSubset('dict comprehension without sort hint')
